@@ -27,6 +27,10 @@ pub struct Case {
     /// execution must still arrive exactly
     #[serde(default)]
     pub streamed: Vec<Option<(u16, Vec<Vec<u8>>)>>,
+    /// other statements the shim prepares after this one, under other ids and with other parameter
+    /// counts `(id, parameters)`; they are never executed and must not matter
+    #[serde(default)]
+    pub others: Vec<(u32, u16)>,
 }
 
 #[derive(Clone, Debug, Serialize, Deserialize)]
@@ -41,7 +45,7 @@ impl Prop for C08 {
         "C08"
     }
     fn rule(&self) -> String {
-        "cases = one prepared statement declaring 0-600 parameters (counts biased to 0, 1, 7, 8, 9, 15-17, 63-65, 255-257, 600) executed 1-3 times with the new-params-bound flag set (later executions either bind fresh types or keep the type codes and flip some signedness flags); per parameter a bound type from every code the protocol defines a binary encoding for (27 codes) x unsigned flag; integer bit patterns over full widths, all float bit patterns incl. infinities, byte strings across the length-encoding classes, every legal length form of DATE (0/4), DATETIME/TIMESTAMP (0/4/7/11) and TIME (0/8/12, incl. negative), MYSQL_TYPE_NULL, arbitrary NULL-bitmap patterns. One case in five has the shim answer a further PREPARE with the same id and parameter count before some executions (after a COM_STMT_CLOSE or with the id still open, and possibly after long data that the client streamed but never executed): the inline values bound afterwards must arrive all the same. One case in five streams one parameter of an execution as long data (1-3 chunks, possibly all empty), which must not disturb the inline values of the others. Oracle: the shim's list has the declared length and per entry the bound type code, the exact ValueInner, and - where the Rust target type can represent the value (not the zero date, not negative TIME, not NaN) - the conversion result equals the encoded value. Non-trivial = >= 9 parameters (second bitmap byte) or an unsigned / narrow / temporal type.".into()
+        "cases = one prepared statement declaring 0-600 parameters (counts biased to 0, 1, 7, 8, 9, 15-17, 63-65, 255-257, 600) executed 1-3 times with the new-params-bound flag set (later executions either bind fresh types or keep the type codes and flip some signedness flags); per parameter a bound type from every code the protocol defines a binary encoding for (27 codes) x unsigned flag; integer bit patterns over full widths, all float bit patterns incl. infinities, byte strings across the length-encoding classes, every legal length form of DATE (0/4), DATETIME/TIMESTAMP (0/4/7/11) and TIME (0/8/12, incl. negative), MYSQL_TYPE_NULL, arbitrary NULL-bitmap patterns. One case in five has the shim answer a further PREPARE with the same id and parameter count before some executions (after a COM_STMT_CLOSE or with the id still open, and possibly after long data that the client streamed but never executed): the inline values bound afterwards must arrive all the same. One case in five streams one parameter of an execution as long data (1-3 chunks, possibly all empty), which must not disturb the inline values of the others. The statement id is the shim's choice (1 mostly; else random, 0, 2^31, 0xFFFFFFFE, 0xFFFFFFFF), and one case in four has the shim prepare 1-3 further statements under other ids and parameter counts after it, which are never executed. Oracle: the shim's list has the declared length and per entry the bound type code, the exact ValueInner, and - where the Rust target type can represent the value (not the zero date, not negative TIME, not NaN) - the conversion result equals the encoded value. Non-trivial = >= 9 parameters (second bitmap byte) or an unsigned / narrow / temporal type.".into()
     }
     fn assumptions(&self) -> Vec<String> {
         vec!["the recording shim iterates all parameters, as every caller in the repository does".into()]
@@ -109,7 +113,21 @@ impl Prop for C08 {
         } else {
             vec![]
         };
-        Case { id: if g.chance(1, 5) { g.raw() } else { 1 }, execs, pre, streamed }
+        // statement ids are the shim's choice: every u32 is legal, also the ones some protocol
+        // dialect gives a special meaning (0, -1 = "the statement prepared last")
+        let r0 = g.raw();
+        let id = if g.chance(1, 4) { *g.pick(&[r0, u32::MAX, 0, u32::MAX - 1, 1 << 31]) } else { 1 };
+        let mut others = Vec::new();
+        if g.chance(1, 4) {
+            for _ in 0..g.usize_in(1, 3) {
+                let r1 = g.raw();
+                let oid = *g.pick(&[2u32, 7, 0, u32::MAX, r1]);
+                if oid != id && !others.iter().any(|(o, _)| *o == oid) {
+                    others.push((oid, g.below(4) as u16));
+                }
+            }
+        }
+        Case { id, execs, pre, streamed, others }
     }
     fn fixed(&self, tier: Tier) -> Vec<Case> {
         // an inline byte-string parameter that makes the COM_STMT_EXECUTE a multi-fragment request,
@@ -130,6 +148,7 @@ impl Prop for C08 {
                 ]],
                 pre: vec![],
                 streamed: vec![],
+                others: vec![],
             });
         }
         v
@@ -140,6 +159,15 @@ impl Prop for C08 {
         let mut cmds = vec![Cmd::Prepare { text: Blob::text("p") }];
         let mut actions = vec![Action::Prepare(PrepProg::Reply { id: case.id, params: (0..n).map(|i| ColSpec::simple(&format!("p{}", i), T_VAR_STRING, 0)).collect(), cols: vec![] })];
         let prep = || Action::Prepare(PrepProg::Reply { id: case.id, params: (0..n).map(|i| ColSpec::simple(&format!("p{}", i), T_VAR_STRING, 0)).collect(), cols: vec![] });
+        for (oid, np) in &case.others {
+            ex.class("other-statements-prepared-after-this-one");
+            if case.id == u32::MAX || case.id == 0 {
+                ex.class("statement-id-0-or-0xffffffff-with-other-statements-open");
+                ex.nontrivial = true;
+            }
+            cmds.push(Cmd::Prepare { text: Blob::text("other") });
+            actions.push(Action::Prepare(PrepProg::Reply { id: *oid, params: (0..*np).map(|i| ColSpec::simple(&format!("o{}", i), T_LONG, 0)).collect(), cols: vec![] }));
+        }
         for (k, e) in case.execs.iter().enumerate() {
             if let Some(Some(p)) = case.pre.get(k) {
                 ex.class("statement-prepared-anew-under-the-same-id-before-an-execution");
